@@ -131,6 +131,25 @@ def main(tier, only=None):
     subprocess.check_call(['gcc', '-O2', '-shared', '-fPIC', '-o', IOTRACE, os.path.join(VERIF, 'engines/iotrace.c'), '-ldl'])
     quick = tier == 'quick'
     bases = only or (['ext4', 'ext2', 'ext4csum'] if quick else ['ext4', 'ext2', 'ext2dx', 'ext3', 'ext4csum', 'bigalloc', 'metabg', 'resizeino', 'inline', 'quota', 'ss2', 'bs4k', 'eainode'])
+    # runtime-built bases with large flex groups: the inode tables of a flex group start far into its first block group, so a shrink can end
+    # in the middle of one (the committed corpus has small flex groups only).  Built with the tree's mke2fs; used only if e2fsck -fn accepts them.
+    flexwin = {}
+    if not only:
+        root = os.path.join(scratch(), 'root8'); os.makedirs(root + '/d')
+        for i in range(5): open(root + '/d/f%d' % i, 'wb').write(bytes((i * 5 + k) & 0xff for k in range(1500 * (i + 1))))
+        os.symlink('f0', root + '/d/l')
+        for name, G, ngroups, extra in (('flex32', 32, 64, []), ('flex64pk', 64, 70, ['-E', 'packed_meta_blocks=1'])) if quick else \
+                                       (('flex32', 32, 64, []), ('flex64', 64, 128, []), ('flex64pk', 64, 70, ['-E', 'packed_meta_blocks=1']), ('flex16csum', 16, 34, ['-O', 'metadata_csum,64bit'])):
+            p = os.path.join(scratch(), name + '.img')
+            rc, out = run([tool('mke2fs'), '-q', '-F', '-t', 'ext4', '-O', '^has_journal,^resize_inode', '-b', '1024', '-g', '256', '-G', str(G), '-N', str(16 * ngroups), '-I', '256',
+                           '-U', '6b33f586-a183-4383-921d-30ab132db9b9', '-d', root] + extra + [p, str(ngroups * 256 + 1)], timeout=120)
+            if rc != 0 or run([E2FSCK, '-fn', p], timeout=120)[0] != 0:
+                log('C08: runtime base %s not usable (mke2fs exit %s)' % (name, rc)); continue
+            fsweep._cache[name] = open(p, 'rb').read(); os.unlink(p)
+            bases = bases + [name]
+            # the window of target sizes that end inside the first group of the second flex group (bitmaps and inode tables of G groups live there)
+            lo = G * 256 + 1
+            flexwin[name] = (lo - 4, lo + (140 if quick else 256) + 4) if 'pk' not in name else (24, 24 + (200 if quick else 700))
     TREES = {b: xtree.tree(Image(fsweep.base_data(b))) for b in bases}
     jobs = []
     for b in bases:
@@ -138,6 +157,11 @@ def main(tier, only=None):
         cur = im.blocks_count; bpg = im.bpg
         hi = min(3 * cur, cur + 6 * bpg)
         sizes = set()
+        if b in flexwin:
+            for s in range(*flexwin[b]):
+                jobs.append(('%s/to%d' % (b, s), b, (str(s),), s % 16 == 0))
+            jobs.append(('%s/-M' % b, b, ('-M', None), True))
+            continue
         for s in range(max(1, 64), hi + 1):
             near = min(abs(s - k * bpg - im.first_data_block) for k in range(0, hi // bpg + 2))
             if not quick or near <= 6 or s % 13 == 0 or abs(s - cur) <= 6:
@@ -157,7 +181,7 @@ def main(tier, only=None):
         if st == 'bad':
             ck.violation(cid, {'base': j[1], 'args': j[2], 'what': msg, 'resize2fs': r})
     ck.add(evaluations=len(jobs), distinct_nontrivial=stat.get('ok', 0), states=len(jobs), transitions=len(jobs), traces_validated_against_impl=len(jobs),
-           rule='populated corpus image x every target size (quick: all sizes within 6 blocks of a group boundary or of the current size, every 13th otherwise) from 64 blocks to 3x / +6 groups, plus -M -P -b/-s -S; '
+           rule='populated corpus image x every target size (quick: all sizes within 6 blocks of a group boundary or of the current size, every 13th otherwise) from 64 blocks to 3x / +6 groups, plus -M -P -b/-s -S; plus runtime-built filesystems with 16/32/64-group flex groups (and packed_meta_blocks) x every shrink target that ends inside the metadata area of a flex group; '
                 'oracle: success => reported size = s_blocks_count, e2fsck -fn = 0, xck.check clean, xck.tree unchanged, and on the traced runs the error-flag invariant over every prefix of the write trace; '
                 'refusal => byte-identical image; mid-run failure => flagged superblock.  distinct_nontrivial = successful resizes',
            samples=[jobs[0][0], jobs[len(jobs) // 3][0], jobs[-1][0]])
